@@ -153,6 +153,9 @@ func runC11(p *Prog, r *Report) {
 	if want("C11.10") {
 		ruleTokenContracts(p, r, "C11.10", 12)
 	}
+	if want("C11.12") {
+		ruleFileNumRecycling(p, r, "C11.12")
+	}
 	if want("C11.11") {
 		r.Begin("C11.11", "E-FLOW", "Transaction.flush turns the buffer into a level-0 table recorded in the transaction's own record and table list (not installed until Commit); a failed table build leaves the buffer untouched", 4)
 		if fn := resolveFn(p, r, "leveldb", "(*Transaction).flush"); fn != nil {
